@@ -63,6 +63,8 @@ package processor
 //@     iter-ensures [retry-only-after-5min] s.retryCount != old(s.retryCount) ==> delta >= 300000000000
 //@     iter-ensures [retry-spacing] s.retryCount != old(s.retryCount) ==> ghostNow() - tns(old(s.lastRetry)) >= 300000000000
 //@     iter-ensures [retry-rebroadcasts] s.retryCount != old(s.retryCount) ==> nsent(p.sendC) == old(nsent(p.sendC)) + 1 && lastsent(p.sendC) == s.ourMsg
+//@     iter-ensures [request-is-for-this-entrys-transaction] nsent(p.obsvReqSendC) != old(nsent(p.obsvReqSendC)) ==> nsent(p.obsvReqSendC) == old(nsent(p.obsvReqSendC)) + 1
+//@       | && fresh(lastsent(p.obsvReqSendC)) && lastsent(p.obsvReqSendC).TxHash == s.txHash && lastsent(p.obsvReqSendC).ChainId == s.ourVAA.EmitterChain
 //@     iter-ensures [retry-stamps] s.retryCount != old(s.retryCount) ==> tns(s.lastRetry) <= ghostNow() && tns(s.lastRetry) >= old(ghostNow())
 //@     iter-ensures [no-retry-no-broadcast] s.retryCount == old(s.retryCount) ==> nsent(p.sendC) == old(nsent(p.sendC)) && nsent(p.obsvReqSendC) == old(nsent(p.obsvReqSendC))
 //@     iter-ensures [retry-when-due] old(s.settled) && !old(s.submitted) && old(s.ourMsg) != nil && !old(exhausted(s)) && delta >= 300000000000 && old(ghostNow()) - tns(old(s.lastRetry)) >= 300000000000 && !(old(s.ourVAA) != nil && delta > 30000000000 && stored(p.db, db.idOf(old(s.ourVAA)))) ==> s.retryCount == old(s.retryCount) + 1
